@@ -690,7 +690,7 @@ class PlainDest(Dest):
         self.snap = self.snapshot()
 
 
-FF_CODES = ('no_lua_section', 'empty_lua_section', 'one_newline', 'comment_only', 'ordinary')
+FF_CODES = ('no_lua_section', 'empty_lua_section', 'one_newline', 'comment_only', 'ordinary', 'section_header_lines_in_a_string')
 FF_SPELLINGS = ('bare', 'dot_slash', 'subdir_relative', 'absolute', 'parent_relative')
 FF_COMMANDS = ('luamin', 'luafmt', 'writep8', 'luafmt_overwrite', 'build', 'to_file')
 
@@ -723,6 +723,8 @@ def run_faultfree(ctx, rng, spec, root, only=None):
                             ext = '.p8' if fmt == 'p8' else '.p8.png'
                             base = carts.cart_basename(n)
                             code = {'no_lua_section': b'', 'empty_lua_section': b'', 'one_newline': b'\n', 'comment_only': b'-- nothing here\n',
+                                    # (lines of a long string / a block comment that read like parts of a cart file)
+                                    'section_header_lines_in_a_string': b'fmt=[[\n__gfx__\n__lua__\n]]\n--[[\n__sfx__\npico-8 cartridge // http://www.pico-8.com\nversion 8\n]]\nx=1\n',
                                     'ordinary': carts.varied_lua(rng, 200)}[code_kind]
                             regions, _ = carts.random_regions(rng, 'sparse')
                             if fmt == 'p8':
